@@ -1,7 +1,7 @@
 #!/bin/sh
 # usage: tools/seeded_intake.sh Cnn k     -- confirm a sub-agent's change in its scratch worktree
 # (patch applies, baseline passes with it, demo fails with it and passes without it)
-id=$1; k=$2; wt=/tmp/wt-$id
+id=$1; k=$2; wt=${3:-/tmp/wt}-$id
 cd $wt || exit 2
 git checkout -q -- . ; rm -f tests/demo_$k.rs; mkdir -p tests
 cp demo-$k.rs tests/demo_$k.rs
